@@ -8,6 +8,8 @@ import (
 	"errors"
 	"fmt"
 	"hash/crc32"
+
+	"storj.io/drpc"
 )
 
 const magic = 0xD19C
@@ -106,7 +108,7 @@ func Parse(b []byte) (Msg, error) {
 type Enc struct{}
 
 // Marshal implements drpc.Encoding.
-func (Enc) Marshal(msg interface{}) ([]byte, error) {
+func (Enc) Marshal(msg drpc.Message) ([]byte, error) {
 	switch m := msg.(type) {
 	case *[]byte:
 		return *m, nil
@@ -118,7 +120,7 @@ func (Enc) Marshal(msg interface{}) ([]byte, error) {
 
 // Unmarshal implements drpc.Encoding. It copies, as every real decoder does:
 // the buffer belongs to the stream and is reused after Unmarshal returns.
-func (Enc) Unmarshal(buf []byte, msg interface{}) error {
+func (Enc) Unmarshal(buf []byte, msg drpc.Message) error {
 	m, ok := msg.(*[]byte)
 	if !ok {
 		return fmt.Errorf("payload.Enc: unsupported message %T", msg)
